@@ -100,6 +100,7 @@ type loopInfo struct {
 	modKeys  map[string]bool
 	iter     *ssa.Range // map-range iterator advanced in this loop (if any)
 	measure0 []string
+	entryVals map[string]Val // loop-carried locals (header phis by name) at loop entry
 	modT     []modTarget // resolved `loop N modifies` clause (targets evaluated at loop entry)
 	hasModT  bool
 }
@@ -883,6 +884,12 @@ func (f *frame) loopHeader(li *loopInfo, phiVals map[*ssa.Phi]Val) {
 	}
 	pos := x.prog.pos(firstPos(li.header))
 	li.pre = f.st.clone()
+	li.entryVals = map[string]Val{}
+	for phi, v := range phiVals {
+		if phi.Comment != "" {
+			li.entryVals[phi.Comment] = v
+		}
+	}
 	li.modKeys = f.loopModKeys(li)
 	// the loop's own frame (optional): targets are evaluated in the loop-entry state
 	if len(li.spec.Modifies) > 0 {
@@ -1108,6 +1115,10 @@ func (f *frame) invEnv(li *loopInfo, over map[ssa.Value]Val) *Env {
 		}
 	}
 	env.pre = li.pre
+	env.entryOf = func(name string) (Val, bool) {
+		v, ok := li.entryVals[name]
+		return v, ok
+	}
 	return env
 }
 
